@@ -321,7 +321,7 @@ Hypothesis Hgood : Good s.
 (* C16: the built-in pools that exist are live ... *)
 Hypothesis builtins_live : forall k p, builtin k -> get_pool s k = Some p -> live p.
 (* ... and the withdrawals of the block ask for less of their liquidity than they recorded *)
-Hypothesis wd_ok : forall k, builtin k -> forall s2 s3 p3,
+Hypothesis wd_ok : forall k, builtin k -> is_Some (get_pool (create_builtins s) k) -> forall s2 s3 p3,
   process_swaps (create_builtins s) = Ok s2 -> process_deposits SO s2 = Ok s3 -> get_pool s3 k = Some p3 ->
   sat_sum (map (fun t => cd_value (out0 t)) (txs_for_pool (List.filter (is_withdraw_request SO s3) (sorted_txs s3)) k)) < p_liqs p3.
 (* the subsidy schedule's shift stays below 128 *)
@@ -482,3 +482,83 @@ End SealTotal.
 
 Lemma live_def p : live p <-> 1 <= p_lefts p /\ 1 <= p_rights p /\ 1 <= p_liqs p.
 Proof. reflexivity. Qed.
+
+(* ---- the withdrawal hypothesis of [seal_total] follows from C16's backing: a built-in pool whose token is
+   backed with room to spare after the bootstrap cannot be asked for all of its liquidity *)
+Section FromBacking.
+Variable K : list (denom * denom).
+Hypothesis Kcodes : NoDup (map poolkey_code K).
+Variable SO : stf_oracle.
+Hypothesis K_builtins : In MS K /\ In ME K /\ In ES K.
+Hypothesis LD_inj : forall k1 k2, In k1 K -> In k2 K -> LDk SO k1 = LDk SO k2 -> k1 = k2.
+Variable s : wstate.
+Hypothesis Hleg : legacy_net s && (s_height s <? 978392) = false.
+Hypothesis Hcover : forall t k1, In t (sorted_txs s) -> tx_pool t = Some k1 -> In k1 K /\ LDk SO k1 <> fst k1 /\ LDk SO k1 <> snd k1.
+Hypothesis Hkeys : NoDup (key_pairs (sorted_txs s)).
+Hypothesis Hd0 : forall t c, In t (sorted_txs s) -> s_coins s !! key0 t = Some c -> as_declared c (out0 t).
+Hypothesis Hd1 : forall t c, In t (sorted_txs s) -> s_coins s !! key1 t = Some c -> as_declared c (out1 t).
+Hypothesis Hs0 : nsum (map (fun t => cd_value (out0 t)) (sorted_txs s)) < U128.
+Hypothesis Hs1 : nsum (map (fun t => cd_value (out1 t)) (sorted_txs s)) < U128.
+Hypothesis Hsat : forall s2, process_swaps (create_builtins s) = Ok s2 ->
+  forall k1 p'' m, In k1 K ->
+    pool_deposit (pool_at s2 k1)
+      (nsum (map (fun t => cd_value (out0 t)) (txs_for_pool (List.filter (is_deposit_request s2) (sorted_txs s2)) k1)))
+      (nsum (map (fun t => cd_value (out1 t)) (txs_for_pool (List.filter (is_deposit_request s2) (sorted_txs s2)) k1))) = Ok (p'', m) ->
+    p_liqs (pool_at s2 k1) + m < U128.
+(* room to spare after the bootstrap: tokens in coins + tokens parked in reserves + 1 <= recorded liquidity *)
+Hypothesis slack : forall k p1, builtin k -> get_pool (create_builtins s) k = Some p1 ->
+  coin_supply (LDk SO k) (s_coins s) + psum K (LDk SO k) (create_builtins s) + 1 <= p_liqs p1.
+
+Lemma builtin_in_K k : builtin k -> In k K.
+Proof. destruct K_builtins as (A & B & C). intros [-> | [-> | ->]]; assumption. Qed.
+
+Lemma wd_ok_from_backing : forall k, builtin k -> is_Some (get_pool (create_builtins s) k) -> forall s2 s3 p3,
+  process_swaps (create_builtins s) = Ok s2 -> process_deposits SO s2 = Ok s3 -> get_pool s3 k = Some p3 ->
+  sat_sum (map (fun t => cd_value (out0 t)) (txs_for_pool (List.filter (is_withdraw_request SO s3) (sorted_txs s3)) k)) < p_liqs p3.
+Proof.
+  intros k Hb [p1 E1] s2 s3 p3 H2 H3 E3.
+  pose proof (builtin_in_K k Hb) as Hk.
+  set (d := LDk SO k) in *. set (s1 := create_builtins s) in *.
+  assert (Eliq: forall st, liq_of K SO d st = p_liqs (pool_at st k)) by (intros st; apply (liq_of_single K Kcodes SO LD_inj); exact Hk).
+  assert (F1: frame_fp s1 = frame_fp s) by apply frame_create_builtins.
+  assert (T1: sorted_txs s1 = sorted_txs s) by (apply txs_same, frame_fp_txs; exact F1).
+  assert (C1: s_coins s1 = s_coins s) by apply coins_create_builtins.
+  assert (N1: s_network s1 = s_network s /\ s_height s1 = s_height s) by (unfold frame_fp, frame in F1; split; congruence).
+  destruct N1 as [En1 Eh1].
+  destruct (before_withdrawals K Kcodes SO s1 s2 s3 H2 H3) as (T3 & Hdw & S13); rewrite ?T1, ?C1; try assumption.
+  { unfold legacy_net. rewrite En1, Eh1. exact Hleg. }
+  { apply Hsat. exact H2. }
+  pose proof (S13 d) as S. unfold settles in S. rewrite !Eliq in S.
+  assert (P1: pool_at s1 k = p1) by (unfold pool_at; rewrite E1; reflexivity).
+  assert (P3: pool_at s3 k = p3) by (unfold pool_at; rewrite E3; reflexivity).
+  rewrite P1, P3, C1 in S. pose proof (slack k p1 Hb E1) as Hsl. fold d s1 in Hsl.
+  set (ws := txs_for_pool (List.filter (is_withdraw_request SO s3) (sorted_txs s3)) k).
+  assert (Hsum: nsum (map (fun t => cd_value (out0 t)) ws) <= coin_supply d (s_coins s3)).
+  { apply request_sum_le_supply.
+    - unfold ws, txs_for_pool. apply NoDup_map_filter, NoDup_map_filter. rewrite T3, T1. apply key0_of_pairs. exact Hkeys.
+    - intros t Ht. unfold ws in Ht. apply in_txs_for_pool in Ht as [Ht Etp]. apply filter_In in Ht as [Hin Hr].
+      rewrite T3 in Hin. pose proof (proj2 (proj2 (request_kinds SO s3 t)) Hr) as Ek.
+      unfold is_withdraw_request in Hr. apply andb_true_iff in Hr as [Hr Hden]. apply andb_true_iff in Hr as [_ Hc].
+      rewrite Etp in Hden. destruct (get_pool s3 k); [|discriminate]. apply denom_eqb_eq in Hden.
+      unfold has_coin in Hc. fold (key0 t) in Hc. destruct (s_coins s3 !! key0 t) as [c|] eqn:Ec; [|discriminate].
+      destruct (Hdw t c Hin Ek Ec) as [D V]. exists c. split; [reflexivity|]. split; [rewrite D; exact Hden|exact V]. }
+  pose proof (sat_sum_le (map (fun t => cd_value (out0 t)) ws)). fold ws. lia.
+Qed.
+
+Lemma named_in_K k : named s k -> In k K.
+Proof. intros [Hb|(t & Ht & E)]; [apply builtin_in_K; exact Hb|apply (Hcover t k Ht E)]. Qed.
+
+(* sealing is total on every state that satisfies C20's invariant and C16's invariant (live built-in pools, backed
+   with room to spare), under the side conditions of the conservation theorems and the two bounds *)
+Theorem seal_total_from_invariants :
+  Good s ->
+  (forall k p, builtin k -> get_pool s k = Some p -> live p) ->
+  (s_height s - TIP_909_HEIGHT) / 1000000 < 128 ->
+  (forall s1 sm, preseal_melmint SO s = Ok s1 -> get_pool s1 MS = Some sm -> s_fee_pool s + p_lefts sm + s_tips s < U128) ->
+  forall a, exists s', seal SO s a = Ok s'.
+Proof.
+  intros G L Hh Hf. apply (seal_total SO s); try assumption.
+  - intros k1 k2 H1 H2 E. apply (K_code_inj K Kcodes); [apply named_in_K; exact H1|apply named_in_K; exact H2|exact E].
+  - exact wd_ok_from_backing.
+Qed.
+End FromBacking.
